@@ -367,6 +367,39 @@ def churn_plans(draw, tier):
 
 
 @st.composite
+def class_churn_plans(draw, tier):
+    """Classes come and go: the same source is executed again and again (new class objects
+    and typing aliases each time), used through a fresh function and dropped - state keyed
+    by the identity of a class or of a typing alias that dies."""
+    spec = draw(plans.specs('s0', max_classes=4))
+    names = [c['name'] for c in spec['classes']]
+    order = list(draw(st.permutations(names)))
+    kind = draw(st.sampled_from(['load', 'load', 'load', 'dumps', 'dumps_json']))
+    ops_ = [{'op': 'rebuild', 'spec': 's0'}]
+    mk = {'op': 'mk', 'slot': 50, 'kind': kind, 'spec': 's0', 'order': order}
+    if kind == 'load':
+        roots = [r for r in plans.root_types(spec) if r != 'any' and r != ['dict', 'int']] \
+            or plans.root_types(spec)
+        mk['root'] = roots[draw(st.integers(0, 40)) % len(roots)]
+    ops_.append(mk)
+    for i in range(draw(st.integers(1, 2))):
+        if kind == 'load':
+            doc, _, _ = draw(plans.doc_texts(spec, mk['root'], p_corrupt=0.15))
+            op = {'op': 'load', 'slot': 50, 'doc': doc, 'source': 'str'}
+        else:
+            op = draw(dump_ops([spec], mk, {}))
+            op.pop('cancel', None)
+        op['file'] = 'cfg.k{}'.format(i)
+        ops_.append(op)
+    ops_.append({'op': 'drop', 'slot': 50})
+    ops_.append({'op': 'gc'})
+    knobs = {'scope': 'core', 'granularity': 'line', 'churn': True, 'retain_exc': False,
+             'repeat': draw(st.sampled_from([160, 240] if tier == 'quick' else [240, 600, 1500]))}
+    return {'specs': [spec], 'setup': [], 'threads': [ops_], 'tape': {'entries': [], 'tail': None},
+            'knobs': knobs}
+
+
+@st.composite
 def storm_plans(draw, tier):
     """One (probably failing) load repeated 16 000 times, nothing else in between:
     state that saturates only after thousands of failed calls (thorough tier only)."""
@@ -385,8 +418,9 @@ def plans_strategy(tier):
         # (storm plans cost about half a minute each)
         return st.integers(0, 1499).flatmap(
             lambda r: storm_plans(tier) if r == 0 else
-            (churn_plans(tier) if r % 15 == 1 else world_plans(tier)))
-    return st.one_of(*([world_plans(tier)] * 14 + [churn_plans(tier)]))
+            (churn_plans(tier) if r % 15 == 1 else
+             (class_churn_plans(tier) if r % 15 == 2 else world_plans(tier))))
+    return st.one_of(*([world_plans(tier)] * 14 + [churn_plans(tier), class_churn_plans(tier)]))
 
 
 # ---------------------------------------------------------------- C06 (history clause)
